@@ -31,7 +31,11 @@ type Query struct {
 	Unordered bool
 	// DeepUnordered: nested lists are assembled from maps as well (service topology).
 	DeepUnordered bool
-	Run           func(s *state.Store, ws memdb.WatchSet) (uint64, any, error)
+	// NoIndex: the store method reports no query index (the wrapper returns a constant).
+	NoIndex bool
+	// NoWatch: the store method takes no watch set (not a blocking endpoint).
+	NoWatch bool
+	Run     func(s *state.Store, ws memdb.WatchSet) (uint64, any, error)
 }
 
 type QResult struct {
@@ -263,6 +267,7 @@ func Battery(u Universe, keys []string, sessions []string, extra BatteryExtra) [
 			r, e := s.VirtualIPForService(structs.PeeredServiceName{ServiceName: structs.NewServiceName(svc, nil)})
 			return 1, r, e
 		})
+		qs[len(qs)-1].NoIndex, qs[len(qs)-1].NoWatch = true, true
 	}
 	for _, gw := range []string{"igw", "tgw", "igw2", "tgw2"} {
 		gw := gw
@@ -333,10 +338,11 @@ func Battery(u Universe, keys []string, sessions []string, extra BatteryExtra) [
 	add("ca", "CARoots", func(s *state.Store, ws memdb.WatchSet) (uint64, any, error) { i, r, e := s.CARoots(ws); return i, r, e })
 	add("ca", "CARootActive", func(s *state.Store, ws memdb.WatchSet) (uint64, any, error) { i, r, e := s.CARootActive(ws); return i, r, e })
 	add("ca", "CAConfig", func(s *state.Store, ws memdb.WatchSet) (uint64, any, error) { i, r, e := s.CAConfig(ws); return i, r, e })
-	add("ca", "CAProviderState(prov1)", func(s *state.Store, ws memdb.WatchSet) (uint64, any, error) {
+	add("internal", "CAProviderState(prov1)", func(s *state.Store, ws memdb.WatchSet) (uint64, any, error) {
 		i, r, e := s.CAProviderState("prov1")
 		return i, r, e
 	})
+	qs[len(qs)-1].NoWatch = true
 	add("peering", "PeeringList", func(s *state.Store, ws memdb.WatchSet) (uint64, any, error) {
 		i, r, e := s.PeeringList(ws, *structs.DefaultEnterpriseMetaInDefaultPartition())
 		return i, r, e
@@ -358,17 +364,18 @@ func Battery(u Universe, keys []string, sessions []string, extra BatteryExtra) [
 	}
 	for n := 1; n <= 2; n++ {
 		id := PeerUUID(n)
-		add("peering", "ExportedServicesForPeer("+tail8(id)+")", func(s *state.Store, ws memdb.WatchSet) (uint64, any, error) {
+		add("internal", "ExportedServicesForPeer("+tail8(id)+")", func(s *state.Store, ws memdb.WatchSet) (uint64, any, error) {
 			i, r, e := s.ExportedServicesForPeer(ws, id, "dc1")
 			if e != nil {
 				return i, nil, nil // unknown peering id: not an interesting error
 			}
 			return i, r, e
 		})
-		add("peering", "PeeringSecretsRead("+tail8(id)+")", func(s *state.Store, ws memdb.WatchSet) (uint64, any, error) {
+		add("internal", "PeeringSecretsRead("+tail8(id)+")", func(s *state.Store, ws memdb.WatchSet) (uint64, any, error) {
 			r, e := s.PeeringSecretsRead(ws, id)
 			return 1, r, e
 		})
+		qs[len(qs)-1].NoIndex, qs[len(qs)-1].NoWatch = true, true
 	}
 	add("acl", "ACLTokenList", func(s *state.Store, ws memdb.WatchSet) (uint64, any, error) {
 		i, r, e := s.ACLTokenList(ws, true, true, "", "", "", nil, nil)
@@ -402,14 +409,16 @@ func Battery(u Universe, keys []string, sessions []string, extra BatteryExtra) [
 	add("fed", "FederationStateList", func(s *state.Store, ws memdb.WatchSet) (uint64, any, error) { i, r, e := s.FederationStateList(ws); return i, r, e })
 	add("meta", "SystemMetadataList", func(s *state.Store, ws memdb.WatchSet) (uint64, any, error) { i, r, e := s.SystemMetadataList(ws); return i, r, e })
 	add("meta", "AutopilotConfig", func(s *state.Store, ws memdb.WatchSet) (uint64, any, error) { i, r, e := s.AutopilotConfig(); return i, r, e })
+	qs[len(qs)-1].NoWatch = true
 	add("meta", "FeatureGatePolicyAndStatus", func(s *state.Store, ws memdb.WatchSet) (uint64, any, error) {
 		i, p, st, e := s.FeatureGatePolicyAndStatus(ws)
 		return i, []any{p, st}, e
 	})
 	add("vip", "ServiceVirtualIPs", func(s *state.Store, ws memdb.WatchSet) (uint64, any, error) { i, r, e := s.ServiceVirtualIPs(); return i, r, e })
+	qs[len(qs)-1].NoWatch = true
 	// ---- usage metrics (index exempt across restore, see DESIGN C02)
 	usage := func(name string, f func(s *state.Store, ws memdb.WatchSet) (uint64, any, error)) {
-		qs = append(qs, Query{Name: name, Group: "usage", UsageMetric: true, Run: f})
+		qs = append(qs, Query{Name: name, Group: "usage", UsageMetric: true, NoWatch: name != "ServiceUsage", Run: f})
 	}
 	usage("ServiceUsage", func(s *state.Store, ws memdb.WatchSet) (uint64, any, error) { i, r, e := s.ServiceUsage(ws, false); return i, r, e })
 	usage("NodeUsage", func(s *state.Store, ws memdb.WatchSet) (uint64, any, error) { i, r, e := s.NodeUsage(); return i, r, e })
